@@ -151,6 +151,63 @@ func computeInlinable(p *Prog) {
 			}
 		}
 	}
+	// closures handed as a callback to a helper that only calls them
+	callbackSet = map[*ssa.Function]*ssa.MakeClosure{}
+	for _, f := range p.RepoFns {
+		for _, b := range f.Blocks {
+			for _, in := range b.Instrs {
+				mc, ok := in.(*ssa.MakeClosure)
+				if !ok {
+					continue
+				}
+				g, _ := mc.Fn.(*ssa.Function)
+				if g == nil || len(g.Blocks) == 0 || inlinableSet[g] {
+					continue
+				}
+				var use *ssa.Call
+				n := 0
+				for _, r := range *mc.Referrers() {
+					if _, dbg := r.(*ssa.DebugRef); dbg {
+						continue
+					}
+					n++
+					if c, isCall := r.(*ssa.Call); isCall {
+						use = c
+					}
+				}
+				if n != 1 || use == nil {
+					continue
+				}
+				h := use.Common().StaticCallee()
+				if h == nil || !inlinableSet[h] || h.Parent() != nil {
+					continue
+				}
+				okUse := false
+				for i, a := range use.Call.Args {
+					if a != ssa.Value(mc) || i >= len(h.Params) {
+						continue
+					}
+					prm := h.Params[i]
+					okUse = true
+					if refs := prm.Referrers(); refs != nil {
+						for _, r := range *refs {
+							if _, dbg := r.(*ssa.DebugRef); dbg {
+								continue
+							}
+							c, isCall := r.(*ssa.Call)
+							if !isCall || c.Call.Value != ssa.Value(prm) {
+								okUse = false
+							}
+						}
+					}
+				}
+				if okUse {
+					callbackSet[g] = mc
+					inlinableSet[g] = true
+				}
+			}
+		}
+	}
 	// function literals without captured variables are plain function values: same rule, all uses are direct calls
 	for _, g := range p.RepoFns {
 		if g.Parent() == nil || len(g.FreeVars) != 0 || len(g.Blocks) == 0 {
@@ -245,6 +302,83 @@ var inlineStack = map[*ssa.Function]bool{}
 type tmplKey struct {
 	fn     *ssa.Function
 	target ssa.Instruction
+	cb     string // the callback closures bound to function-typed parameters (helpers taking a callback)
+}
+
+// cbBind: while a helper is interpreted for one call site, the closure each of its callback parameters stands for.
+var cbBind = map[*ssa.Parameter]*ssa.Function{}
+
+// callbackSet: closures created only to be handed, as a callback that is merely called, to a helper interpreted inline.
+var callbackSet map[*ssa.Function]*ssa.MakeClosure
+
+func cbKey(cb map[*ssa.Parameter]*ssa.Function) string {
+	if len(cb) == 0 {
+		return ""
+	}
+	var ks []string
+	for p, g := range cb {
+		ks = append(ks, p.Name()+"="+g.String())
+	}
+	sort.Strings(ks)
+	return strings.Join(ks, ",")
+}
+
+// cbOf: the callback closures a call hands to the helper it calls.
+func cbOf(c *ssa.Call) map[*ssa.Parameter]*ssa.Function {
+	h := c.Common().StaticCallee()
+	if h == nil || len(callbackSet) == 0 {
+		return nil
+	}
+	var out map[*ssa.Parameter]*ssa.Function
+	for i, a := range c.Call.Args {
+		if mc, ok := a.(*ssa.MakeClosure); ok && i < len(h.Params) {
+			if g, _ := mc.Fn.(*ssa.Function); g != nil && callbackSet[g] == mc {
+				if out == nil {
+					out = map[*ssa.Parameter]*ssa.Function{}
+				}
+				out[h.Params[i]] = g
+			}
+		}
+	}
+	return out
+}
+
+// paramCallee: a call through a callback parameter that is bound for the current interpretation.
+func paramCallee(in ssa.Instruction) *ssa.Function {
+	c, ok := in.(*ssa.Call)
+	if !ok || c.Common().IsInvoke() {
+		return nil
+	}
+	p, ok := c.Common().Value.(*ssa.Parameter)
+	if !ok {
+		return nil
+	}
+	g := cbBind[p]
+	if g == nil || inlineStack[g] || inlineDepth >= maxInlineDepth+1 {
+		return nil
+	}
+	return g
+}
+
+func templatesCB(g *ssa.Function, target ssa.Instruction, cb map[*ssa.Parameter]*ssa.Function) ([]*PathState, bool) {
+	if len(cb) == 0 {
+		return templates(g, target)
+	}
+	saved := map[*ssa.Parameter]*ssa.Function{}
+	for p, f := range cb {
+		saved[p] = cbBind[p]
+		cbBind[p] = f
+	}
+	defer func() {
+		for p, f := range saved {
+			if f == nil {
+				delete(cbBind, p)
+			} else {
+				cbBind[p] = f
+			}
+		}
+	}()
+	return templates(g, target)
 }
 
 var tmplMemo = map[tmplKey][]*PathState{}
@@ -252,7 +386,16 @@ var tmplComplete = map[tmplKey]bool{}
 
 // templates returns the interpreted paths of an inlinable helper (to every exit, or to target when target != nil).
 func templates(g *ssa.Function, target ssa.Instruction) ([]*PathState, bool) {
-	k := tmplKey{g, target}
+	k := tmplKey{g, target, ""}
+	if len(cbBind) > 0 {
+		rel := map[*ssa.Parameter]*ssa.Function{}
+		for _, p := range g.Params {
+			if f := cbBind[p]; f != nil {
+				rel[p] = f
+			}
+		}
+		k.cb = cbKey(rel)
+	}
 	if t, ok := tmplMemo[k]; ok {
 		return t, tmplComplete[k]
 	}
@@ -303,6 +446,9 @@ func DeepInstrs(fn *ssa.Function) []ssa.Instruction {
 				if c, ok := in.(*ssa.Call); ok && depth < maxInlineDepth {
 					if g := c.Common().StaticCallee(); g != nil && Inlinable(g) {
 						walk(g, depth+1)
+						for _, cbf := range cbOf(c) {
+							walk(cbf, depth+1)
+						}
 					}
 				}
 			}
@@ -462,6 +608,17 @@ func (s *PathState) applyTemplateMode(call *ssa.Call, g *ssa.Function, t *PathSt
 			r = x
 		case "freevar":
 			r = x
+			for _, a := range call.Call.Args {
+				if mc, ok := a.(*ssa.MakeClosure); ok {
+					if cf, _ := mc.Fn.(*ssa.Function); cf != nil && callbackSet[cf] == mc {
+						for i, fv := range cf.FreeVars {
+							if fv.Name() == x.Aux && i < len(mc.Bindings) {
+								r = s.T(mc.Bindings[i])
+							}
+						}
+					}
+				}
+			}
 			if mc := closureMC[g]; mc != nil {
 				for i, fv := range g.FreeVars {
 					if fv.Name() == x.Aux && i < len(mc.Bindings) {
